@@ -31,6 +31,7 @@ import datetime
 import heapq
 import pickle
 import sys
+import time as _time
 import traceback
 import types as pytypes
 
@@ -286,6 +287,9 @@ class Kernel:
         self.observers = []  # callables(kernel, rec, msg, sender) -> None | "drop"
         self.stalled = False
         self.stall_reason = None
+        self.budget_exceeded = False
+        self.max_delay = 0.0
+        self.wall_deadline = None  # generous wall-clock watchdog; firing makes the run inconclusive, never a verdict
         self.notes = []
         self.last_progress = 0.0
         self.proc_offset_fn = lambda cls, system: 0.0
@@ -399,6 +403,8 @@ class Kernel:
             self.handler_errors.append(("unpicklable", type(msg).__name__, repr(e)))
             raise
         delay = 0.0 if system_msg else max(0.0, self.delay_profile(sender_rec, trec, msg, self.rng))
+        if delay > self.max_delay:
+            self.max_delay = delay
         ch = (sender_rec.addr.n, trec.addr.n)
         when = max(self.clock.now + delay, self.channel_last.get(ch, 0.0))
         self.channel_last[ch] = when
@@ -470,7 +476,8 @@ class Kernel:
         when, _, kind, data, _ = ev
         self.clock.advance_to(when)
         self.steps += 1
-        if self.steps > self.max_steps or self.clock.now > self.max_vt:
+        if self.steps > self.max_steps or self.clock.now > self.max_vt or (self.wall_deadline is not None and self.steps % 500 == 0 and _time.monotonic() > self.wall_deadline):
+            self.budget_exceeded = True
             raise Budget(f"steps={self.steps} vt={self.clock.now}")
         if kind == "deliver":
             self._deliver(*data)
